@@ -506,6 +506,13 @@ func formatOK(format, s string) bool {
 func Match(d *m.Design, a *m.Attr, sent, got value.V, wire bool, path string) string {
 	unsetSent := sent.IsNil() || emptyColl(sent)
 	unsetGot := got.IsNil() || emptyColl(got)
+	if sent.K == "skip" {
+		// attribute outside the rendered view
+		if unsetGot {
+			return ""
+		}
+		return fmt.Sprintf("%s: attribute outside the view arrived as %s", orRoot(path), got.Canon())
+	}
 	if a == nil {
 		if sent.Canon() != got.Canon() {
 			return fmt.Sprintf("%s: want %s got %s", orRoot(path), sent.Canon(), got.Canon())
@@ -550,7 +557,7 @@ func Match(d *m.Design, a *m.Attr, sent, got value.V, wire bool, path string) st
 		for _, f := range res.Type.Fields {
 			sv, _ := sent.Get(f.Name)
 			gv, _ := got.Get(f.Name)
-			if (sv.IsNil() || emptyColl(sv)) && f.Required && d.Underlying(f.Attr).IsPrimitive() && IsZero(gv) {
+			if (sv.IsNil() || emptyColl(sv) || sv.K == "skip") && f.Required && d.Underlying(f.Attr).IsPrimitive() && IsZero(gv) {
 				// a required primitive is a non-pointer Go field: "unset" (e.g. an
 				// attribute outside the rendered view) is its zero value
 				continue
@@ -687,7 +694,9 @@ func Project(d *m.Design, a *m.Attr, v value.V, view string) value.V {
 			return v
 		}
 		out := value.V{K: "object"}
+		inView := map[string]bool{}
 		for _, vf := range vw.Fields {
+			inView[vf.Name] = true
 			fv, ok := v.Get(vf.Name)
 			if !ok {
 				continue
@@ -697,6 +706,12 @@ func Project(d *m.Design, a *m.Attr, v value.V, view string) value.V {
 				continue
 			}
 			out.O = append(out.O, value.Field{N: vf.Name, V: Project(d, mf.Attr, fv, nestedView(mf.Attr, vf.View))})
+		}
+		// attributes the view does not expose must arrive unset (no default either)
+		for _, f := range ut.Attr.Type.Fields {
+			if !inView[f.Name] {
+				out.O = append(out.O, value.Field{N: f.Name, V: value.V{K: "skip"}})
+			}
 		}
 		return out
 	}
@@ -743,4 +758,134 @@ func DefaultStatus(meth *m.Method) int {
 		return 204
 	}
 	return 200
+}
+
+// MaskOutsideView removes from a value observed at the client the attributes
+// that the view does not expose when they hold the zero value: a primitive
+// with a default or a required primitive is a non-pointer Go field, so "unset"
+// shows as zero there. Non-zero values outside the view are kept (and are then
+// reported as unexpected by Match).
+func MaskOutsideView(d *m.Design, a *m.Attr, got value.V, view string) value.V {
+	if a == nil || a.Type == nil || got.IsNil() {
+		return got
+	}
+	switch a.Type.Kind {
+	case m.Array:
+		if got.K != "array" {
+			return got
+		}
+		out := value.V{K: "array", A: make([]value.V, len(got.A))}
+		for i, e := range got.A {
+			out.A[i] = MaskOutsideView(d, a.Type.Elem, e, view)
+		}
+		return out
+	case m.Map:
+		if got.K != "map" {
+			return got
+		}
+		out := value.V{K: "map", A: make([]value.V, len(got.A))}
+		for i := 0; i+1 < len(got.A); i += 2 {
+			out.A[i] = got.A[i]
+			out.A[i+1] = MaskOutsideView(d, a.Type.Val, got.A[i+1], view)
+		}
+		return out
+	case m.Object:
+		if got.K != "object" {
+			return got
+		}
+		out := value.V{K: "object"}
+		for _, f := range got.O {
+			mf := d.FieldByName(a, f.N)
+			if mf == nil {
+				out.O = append(out.O, f)
+				continue
+			}
+			out.O = append(out.O, value.Field{N: f.N, V: MaskOutsideView(d, mf.Attr, f.V, nestedView(mf.Attr, ""))})
+		}
+		return out
+	case m.User:
+		ut := d.TypeByName(a.Type.User)
+		if ut == nil {
+			return got
+		}
+		if !ut.Result || len(ut.Views) == 0 {
+			return MaskOutsideView(d, ut.Attr, got, "default")
+		}
+		if view == "" {
+			view = "default"
+		}
+		var vw *m.View
+		for _, c := range ut.Views {
+			if c.Name == view {
+				vw = c
+			}
+		}
+		if vw == nil || got.K != "object" {
+			return got
+		}
+		in := map[string]string{}
+		for _, vf := range vw.Fields {
+			in[vf.Name] = vf.View
+		}
+		out := value.V{K: "object"}
+		for _, f := range got.O {
+			mf := d.FieldByName(ut.Attr, f.N)
+			if mf == nil {
+				out.O = append(out.O, f)
+				continue
+			}
+			vv, inView := in[f.N]
+			if !inView {
+				if IsZero(f.V) {
+					continue
+				}
+				out.O = append(out.O, f)
+				continue
+			}
+			out.O = append(out.O, value.Field{N: f.N, V: MaskOutsideView(d, mf.Attr, f.V, nestedView(mf.Attr, vv))})
+		}
+		return out
+	}
+	return got
+}
+
+// IsRecursive reports whether the named user type refers to itself (directly
+// or through other user types).
+func IsRecursive(d *m.Design, name string) bool {
+	seen := map[string]bool{}
+	var walk func(t *m.Type) bool
+	walk = func(t *m.Type) bool {
+		if t == nil {
+			return false
+		}
+		switch t.Kind {
+		case m.User:
+			if t.User == name {
+				return true
+			}
+			if seen[t.User] {
+				return false
+			}
+			seen[t.User] = true
+			if ut := d.TypeByName(t.User); ut != nil && ut.Attr != nil {
+				return walk(ut.Attr.Type)
+			}
+		case m.Array:
+			return walk(t.Elem.Type)
+		case m.Map:
+			return walk(t.Val.Type) || walk(t.Key.Type)
+		case m.Object, m.Union:
+			for _, f := range t.Fields {
+				if walk(f.Attr.Type) {
+					return true
+				}
+			}
+		}
+		return false
+	}
+	ut := d.TypeByName(name)
+	if ut == nil || ut.Attr == nil {
+		return false
+	}
+	return walk(ut.Attr.Type)
 }
